@@ -31,10 +31,20 @@ class Module:
             # mechanical slice of the driver (rule and dropped lines: vf/driver_slice.py)
             from .driver_slice import sliced_source
             self.source, self.dropped_lines = sliced_source(self.repo)
+        elif '#slice:' in relpath:
+            # mechanical backward slice of one function (rule: vf/func_slice.py); the rest of the module is unchanged
+            real, _, spec = relpath.partition('#slice:')
+            self.path = os.path.join(self.repo, real)
+            with open(self.path) as fh:
+                self.source = fh.read()
         else:
             with open(self.path) as fh:
                 self.source = fh.read()
         self.tree = ast.parse(self.source)
+        if '#slice:' in relpath:
+            from .func_slice import apply as _apply_slice
+            q_, _, tg_ = relpath.partition('#slice:')[2].partition(':')
+            self.dropped_lines = _apply_slice(self.tree, q_, [t for t in tg_.split(',') if t])
         self.lines = self.source.splitlines()
         self.functions = {}
         self.classes = {}
@@ -199,6 +209,7 @@ class Contract:
         self.creates = d.get('creates', {})   # attributes of self the method creates: name -> sort spec (fresh values constrained by ensures)
         self.allow_negative_index = d.get('allow_negative_index', False)
         self.interp_src = d.get('interp_src', None)   # (spline param, data param): records what the spline now interpolates
+        self.elementwise = d.get('elementwise', False)   # pure one-argument function parameter that maps over arrays entry by entry (assumed)
         self.sets = d.get('sets', {})   # attribute of self -> expression (post-state); an ensures when verified, an assignment when used
 
 
